@@ -38,7 +38,11 @@ manifest = {
         "add_only": True,
     },
     "engines": [{"name": "hypothesis", "path": "vlib/runner.py", "serves_properties": [c["property_id"] for c in checks],
-                 "kind_free_text": "Hypothesis-driven generated programs/inputs/histories with explicit oracles; sharded over processes; collect-then-shrink"}],
+                 "kind_free_text": "Hypothesis-driven generated programs/inputs/histories with explicit oracles; sharded over processes; collect-then-shrink"},
+                {"name": "atheris", "path": "vlib/fuzz_target.py",
+                 "serves_properties": [c["property_id"] for c in checks if c["property_id"] not in ("C09", "C10", "C16")],
+                 "kind_free_text": "thorough tier only: libFuzzer (atheris) mutating the buffer the same Hypothesis strategy draws from, branch coverage of the "
+                                   "apischema package as feedback, same evaluate() oracle; 8 fresh interpreters per check, results merged with the Hypothesis shards"}],
     "checks": checks,
     "notes": "All checks run /venv/bin/python against the working tree of /repo (sys.path first). Known findings and fixed defects: known_findings.json.",
     "not_applicable": na,
